@@ -157,4 +157,131 @@ example : (reader ⟨false, false, true⟩).extract .head (ascii "HTTP/1.1 101 S
 example : (reader ⟨false, true, false⟩).extract .head (ascii "HTTP/1.1 200 OK\r\n\r\n")
     = some (.response ⟨ascii "1.1", 200, ascii "OK", []⟩, .switched, []) := by decide
 
+
+
+/-! ## through the leading data and on into the live connection -/
+
+theorem netRead_exact (segs : List Bytes) (m : Nat) :
+    (netRead segs m).1 ++ (netRead segs m).2.flatten = segs.flatten ∧ (netRead segs m).1.length ≤ m := by
+  cases segs with
+  | nil => simp [netRead]
+  | cons s rest =>
+    simp only [netRead]
+    split
+    · exact ⟨by simp [← List.append_assoc], List.length_take_le m s⟩
+    · exact ⟨by simp, by simp only; omega⟩
+
+/-- **C17.handover_read** — one read of the handed-over stream returns at most `max_bytes` bytes, and what it
+returns, followed by the leading data and the network data that remain, is what was there before the
+read: nothing lost, duplicated or reordered. While leading data remains the network is not read at all
+(so live data can never overtake it), and once it is used up the leading data stays empty. -/
+theorem handover_read (l : Bytes) (segs : List Bytes) (m : Nat) :
+    let r := handoverRead l segs m
+    r.1 ++ r.2.1 ++ r.2.2.flatten = l ++ segs.flatten ∧ r.1.length ≤ m ∧
+    (l ≠ [] → r.2.2 = segs ∧ r.1 ++ r.2.1 = l) ∧ (l = [] → r.2.1 = []) := by
+  intro r
+  by_cases hl : l = []
+  · have hr : r = ((netRead segs m).1, l, (netRead segs m).2) := by
+      simp [r, handoverRead, upgradeRead, hl]
+    have hn := netRead_exact segs m
+    rw [hr]; simp [hl, hn.1, hn.2]
+  · obtain ⟨out, rest, h1, h2, h3, _⟩ := (read_slice l m).2 hl
+    have hr : r = (out, rest, segs) := by simp [r, handoverRead, h1]
+    rw [hr]; simp [h2, ← h3]
+
+/-- **C17.handover_reads (any sequence of max_bytes, any network segmentation)** — the results of
+successive reads, followed by what is still held and what is still in the network, concatenate to
+leading data ++ live data. -/
+theorem handover_reads (l : Bytes) (segs : List Bytes) (ms : List Nat) :
+    let h := handoverReads l segs ms
+    h.1.flatten ++ h.2.1 ++ h.2.2.flatten = l ++ segs.flatten ∧ h.1.length = ms.length ∧
+    ∀ i (hi : i < h.1.length) (hm : i < ms.length), (h.1[i]).length ≤ ms[i] := by
+  induction ms generalizing l segs with
+  | nil => simp [handoverReads]
+  | cons m rest ih =>
+    obtain ⟨h1, h2, _, _⟩ := handover_read l segs m
+    obtain ⟨i1, i2, i3⟩ := ih (handoverRead l segs m).2.1 (handoverRead l segs m).2.2
+    simp only [handoverReads, List.flatten_cons, List.append_assoc, List.length_cons] at *
+    refine ⟨by rw [i1]; exact h1, by omega, ?_⟩
+    intro i hi hm
+    cases i with
+    | zero => simpa using h2
+    | succ k => simpa using i3 k (by omega) (by omega)
+
+/-- **C17.handover_exact (end to end)** — for every switching response head `raw`, every amount of
+post-head data `d`, every segmentation of `raw ++ d` into network reads and every sequence of
+`max_bytes` values used by the caller: what the caller's reads return, followed by what the stream
+and the network still hold, is exactly `d`. In particular the concatenation of the reads is a prefix
+of `d` at every moment. -/
+theorem handover_exact (ri : ReqInfo) (raw d : Bytes) (ev : Ev)
+    (hx : (reader ri).extract .head raw = some (ev, .switched, []))
+    (segs : List Bytes) (hs : segs.flatten = raw ++ d) (ms : List Nat) :
+    let r := feedUntilSwitched ri ([], .head, []) segs
+    let h := handoverReads r.1.2.2 r.2 ms
+    h.1.flatten ++ h.2.1 ++ h.2.2.flatten = d ∧ h.1.flatten <+: d := by
+  intro r h
+  obtain ⟨_, hd, _⟩ := leading_exact ri raw d ev hx segs hs
+  obtain ⟨hh, _, _⟩ := handover_reads r.1.2.2 r.2 ms
+  have : h.1.flatten ++ h.2.1 ++ h.2.2.flatten = d := by rw [← hd]; exact hh
+  exact ⟨this, ⟨h.2.1 ++ h.2.2.flatten, by rw [← this]; simp⟩⟩
+
+/-- with `max_bytes ≥ 1` throughout and as many reads as there are bytes, everything is delivered -/
+theorem handover_reads_exhaust (l : Bytes) (segs : List Bytes) (ms : List Nat) (hpos : ∀ m ∈ ms, 1 ≤ m)
+    (hne : ∀ s ∈ segs, s ≠ []) (hlen : l.length + segs.flatten.length ≤ ms.length) :
+    (handoverReads l segs ms).2.1 = [] ∧ (handoverReads l segs ms).2.2 = [] := by
+  induction ms generalizing l segs with
+  | nil =>
+    have h0 : l.length + segs.flatten.length ≤ 0 := by simpa only [List.length_nil] using hlen
+    have hl : l = [] := List.eq_nil_of_length_eq_zero (by omega)
+    cases segs with
+    | nil => simp [handoverReads, hl]
+    | cons s rest =>
+      have := hne s (by simp)
+      have : 0 < s.length := List.length_pos_iff.mpr this
+      simp only [List.flatten_cons, List.length_append] at h0; omega
+  | cons m rest ih =>
+    simp only [handoverReads]
+    have hm := hpos m (by simp)
+    by_cases hl : l = []
+    · subst hl
+      cases segs with
+      | nil =>
+        have : handoverRead [] [] m = ([], [], []) := by simp [handoverRead, upgradeRead, netRead]
+        rw [this]
+        exact ih [] [] (fun m' hm' => hpos m' (by simp [hm'])) (by simp) (by simp)
+      | cons s tl =>
+        have hs := hne s (by simp)
+        have hsl : 0 < s.length := List.length_pos_iff.mpr hs
+        by_cases hlt : m < s.length
+        · have : handoverRead [] (s :: tl) m = (s.take m, [], s.drop m :: tl) := by
+            simp [handoverRead, upgradeRead, netRead, hlt]
+          rw [this]
+          apply ih
+          · exact fun m' hm' => hpos m' (by simp [hm'])
+          · intro x hx
+            simp only [List.mem_cons] at hx
+            rcases hx with rfl | hx
+            · intro hc; simp at hc; omega
+            · exact hne x (by simp [hx])
+          · simp at hlen ⊢; omega
+        · have : handoverRead [] (s :: tl) m = (s, [], tl) := by
+            simp [handoverRead, upgradeRead, netRead, hlt]
+          rw [this]
+          apply ih
+          · exact fun m' hm' => hpos m' (by simp [hm'])
+          · exact fun x hx => hne x (by simp [hx])
+          · simp at hlen ⊢; omega
+    · have : handoverRead l segs m = (l.take m, l.drop m, segs) := by
+        simp [handoverRead, upgradeRead, hl]
+      rw [this]
+      apply ih
+      · exact fun m' hm' => hpos m' (by simp [hm'])
+      · exact hne
+      · have : 0 < l.length := List.length_pos_iff.mpr hl
+        simp at hlen ⊢; omega
+
+/-! non-vacuity: leading data "ab", live data "cde" | "f", reads of 1, 5, 2, 9 bytes -/
+example : handoverReads [97, 98] [[99, 100, 101], [102]] [1, 5, 2, 9]
+    = ([[97], [98], [99, 100], [101]], [], [[102]]) := by decide
+
 end Httpcore.C17
